@@ -131,6 +131,20 @@ def gen_graph(rng, version):
                     lines.append(rng.choice(["U\t%s\t%s", "O\t%s\t%s+"]) % (nm, rng.choice(names)))
                 else:
                     lines.append("G\t%s\t%s+\t%s-\t10\t*" % (nm, rng.choice(names), rng.choice(names)))
+    if "copy-name-taken-by-nonsegment" not in feats and rng.random() < 0.15:
+        # ... or is only referred to so far (a link to a segment which is not defined yet)
+        s0 = rng.choice(names)
+        nm = s0 + "*2"
+        if s0[-2:-1] == "*" and s0[-1].isdigit():
+            nm = s0[:-1] + str(int(s0[-1]) + 1)
+        others = [x for x in names if x != s0]
+        if nm not in names and others:
+            o = rng.choice(others)
+            feats.add("copy-name-only-referred-to")
+            if version == "gfa1":
+                lines.append("L\t%s\t+\t%s\t+\t*" % (o, nm))
+            else:
+                lines.append("E\t*\t%s+\t%s+\t%d\t%d$\t0\t3\t*" % (o, nm, lens[o] - 3, lens[o]))
     return lines, names, sorted(feats)
 
 
@@ -151,7 +165,12 @@ def cases(rng, tier, shard, nshards):
         k = rng.choice([-1, 0, 1, 2, 2, 3, 3, 4])
         given = rng.random() < 0.3 and k >= 2
         prelude = []
-        if rng.random() < 0.3:
+        open_graph = "copy-name-only-referred-to" in feats
+        if open_graph:
+            # (only the naming of the copies is in question on a graph under construction)
+            k = rng.choice([2, 2, 3])
+            given = False
+        if rng.random() < 0.3 and not open_graph:
             for _ in range(rng.randint(1, 3)):
                 o = rng.random()
                 if o < 0.3:
@@ -160,7 +179,17 @@ def cases(rng, tier, shard, nshards):
                     prelude.append(["multiply", rng.choice(names), rng.choice([0, 2, 2, 3])])
                 else:
                     prelude.append(["rename", rng.choice(names), rng.choice(names) + "*%d" % rng.randint(2, 3)])
-        yield {"version": version, "lines": lines, "segment": rng.choice(names), "factor": k, "prelude": prelude,
+        seg = rng.choice(names)
+        if open_graph:
+            dangling = [l.split("\t")[4 if version == "gfa1" else 3].rstrip("+") for l in lines[-1:] if l[0] in "LE"]
+            for l in lines:
+                f = l.split("\t")
+                nm = (f[3] if version == "gfa1" else f[3][:-1]) if f[0] in "LE" and len(f) > 3 else None
+                if nm and nm not in names:
+                    base = nm[:-2] if nm.endswith("*2") else nm[:-1] + str(int(nm[-1]) - 1) if nm[-1].isdigit() else nm
+                    if base in names:
+                        seg = base
+        yield {"version": version, "lines": lines, "segment": seg, "factor": k, "prelude": prelude,
                "distribute": rng.choice([None, None, "off", "auto", "equal", "L", "R"]),
                "copy_names": ["cp%d" % i for i in range(k - 1)] if given else None, "feats": feats,
                "by": rng.choice(["name", "line"])}
@@ -273,7 +302,18 @@ def run(case, ctx):
     if case.get("k") == "apply-cn":
         return run_apply_cn(case, ctx)
     version, lines, sname, k = case["version"], case["lines"], case["segment"], case["factor"]
-    r = call(ctx, "Gfa(list)", gfapy.Gfa, lines, version=version, vlevel=level_of(ctx, lines))
+    if "copy-name-only-referred-to" in case["feats"]:
+        # a graph under construction (one line refers to a segment which is not defined yet): built
+        # line by line
+        def build():
+            g_ = gfapy.Gfa(version=version, vlevel=level_of(ctx, lines))
+            for l_ in lines:
+                g_.add_line(l_)
+            return g_
+        r = call(ctx, "Gfa(); add_line ...", build)
+        ctx.count("graphs_under_construction")
+    else:
+        r = call(ctx, "Gfa(list)", gfapy.Gfa, lines, version=version, vlevel=level_of(ctx, lines))
     if not r.ok:
         ctx.violation("valid-document-refused/%s" % r.cls(), "%r: %s" % (lines, str(r.exc)[:200]), prop="C01")
         return
